@@ -8,18 +8,28 @@ protocol:
 
   * the order of: dirty-bucket snapshot, bucket-object writes, metadata write (commit point),
     publication of `last_saved_version`, publication of the in-memory manifest, clearing of dirty marks;
-  * the expression that defines this flush's generation, the generation a dirty / a clean bucket gets
-    in the new manifest, the filter that selects the obsolete objects;
+  * where this flush's generation comes from (canonical expression after resolving local `let`s),
+    that a bucket written by this flush gets that generation in the new manifest, that a clean bucket
+    keeps the committed one, that the obsolete list is "committed entries the new manifest does not
+    keep";
   * whether an error of a bucket write / of the metadata write leaves the function before anything
     later happens (`.await … ?`);
-  * in the caller: `flush_owned_with` (error-propagating) before the best-effort deletions.
+  * in the caller: `flush_owned_with` (error-propagating) before the best-effort deletions of exactly
+    the reported obsolete objects.
 
-Works on a comment- and string-stripped copy; keys on call names, not on layout. Strict about
-meaning: a marker that is missing or occurs twice in the function body is an error (exit 2).
+Robust against behaviour-preserving rewrites: works on a comment- and string-stripped copy of the
+non-test source with every call of a function defined in the same file inlined (parameters replaced by
+the argument expressions), keys on what is called / which field is assigned / which closure bound a
+parameter has — never on the names of locals, closure parameters, parameters of the function, helper
+functions, or on layout. The two writer callbacks are recognised by their `Fn*` bounds.
+Strict about meaning: a marker that cannot be found is an error (exit 2), never a default.
 """
 import os
 import re
 import sys
+
+sys.path.insert(0, os.path.dirname(os.path.abspath(__file__)))
+from common import strip_rust_comments, cut_tests  # noqa: E402
 
 
 def die(msg):
@@ -27,76 +37,208 @@ def die(msg):
     sys.exit(2)
 
 
-def strip(src):
-    """Remove comments; blank out string / char literal contents (lengths are not preserved)."""
-    out, i, n = [], 0, len(src)
-    while i < n:
-        c = src[i]
-        if src.startswith("//", i):
-            while i < n and src[i] != "\n":
-                i += 1
-        elif src.startswith("/*", i):
-            depth, i = 1, i + 2
-            while i < n and depth:
-                if src.startswith("/*", i):
-                    depth, i = depth + 1, i + 2
-                elif src.startswith("*/", i):
-                    depth, i = depth - 1, i + 2
-                else:
-                    i += 1
-        elif c == '"':
-            out.append('""')
-            i += 1
-            while i < n and src[i] != '"':
-                i += 2 if src[i] == "\\" else 1
-            i += 1
-        elif c == "'" and re.match(r"'(\\.|[^\\'])'", src[i:i + 4]):
-            m = re.match(r"'(\\.|[^\\'])'", src[i:i + 4])
-            out.append("' '")
-            i += m.end()
-        else:
-            out.append(c)
-            i += 1
-    return "".join(out)
+IDENT = r"[A-Za-z_][A-Za-z0-9_]*"
 
 
-def fn_body(src, name, path):
-    ms = list(re.finditer(r"\bfn\s+" + re.escape(name) + r"\b", src))
-    if len(ms) != 1:
-        die(f"{path}: expected exactly one `fn {name}`, found {len(ms)}")
-    i, depth = ms[0].end(), 0
-    while i < len(src):
-        ch = src[i]
-        if ch in "([":
+def squash(s):
+    return re.sub(r"\s+", "", s)
+
+
+def lean_str(s):
+    return '"' + s.replace("\\", "\\\\").replace('"', '\\"') + '"'
+
+
+def match_close(text, open_pos):
+    """index of the bracket closing the one at open_pos"""
+    depth, i = 0, open_pos
+    while i < len(text):
+        if text[i] in "([{":
             depth += 1
-        elif ch in ")]":
-            depth -= 1
-        elif ch == "{" and depth == 0:
-            break
-        elif ch == ";" and depth == 0:
-            die(f"{path}: fn {name} has no body")
-        i += 1
-    start, depth = i, 0
-    while i < len(src):
-        if src[i] == "{":
-            depth += 1
-        elif src[i] == "}":
+        elif text[i] in ")]}":
             depth -= 1
             if depth == 0:
-                return src[start + 1:i]
+                return i
         i += 1
-    die(f"{path}: unbalanced braces in fn {name}")
+    die("unbalanced brackets")
 
 
-def once(body, pattern, what, fn):
-    ms = list(re.finditer(pattern, body))
-    if len(ms) != 1:
-        die(f"fn {fn}: marker `{what}` expected once, found {len(ms)} times")
-    return ms[0]
+def split_top(text, sep=","):
+    out, depth, cur, angle = [], 0, [], 0
+    for i, ch in enumerate(text):
+        if ch in "([{":
+            depth += 1
+        elif ch in ")]}":
+            depth -= 1
+        elif ch == "<" and depth >= 0 and re.match(r"[\w>:]", text[i - 1:i] or " "):
+            angle += 1
+        elif ch == ">" and angle > 0 and text[i - 1:i] != "-" and text[i - 1:i] != "=":
+            angle -= 1
+        if ch == sep and depth == 0 and angle == 0:
+            out.append("".join(cur))
+            cur = []
+        else:
+            cur.append(ch)
+    if "".join(cur).strip():
+        out.append("".join(cur))
+    return [x.strip() for x in out]
+
+
+class Src:
+    def __init__(self, text, path):
+        self.text, self.path = text, path
+        self.fns = {}
+        self.private = set()
+        for m in re.finditer(r"\bfn\s+(" + IDENT + r")\b", text):
+            name = m.group(1)
+            head = text[max(0, m.start() - 60):m.start()]
+            if not re.search(r"\bpub\s*(?:\([^)]*\)\s*)?(?:(?:async|const|unsafe)\s+)*$", head):
+                self.private.add(name)
+            # parameter list
+            i = m.end()
+            depth = 0
+            while i < len(text) and not (text[i] == "(" and depth == 0):
+                if text[i] == "<":
+                    depth += 1
+                elif text[i] == ">" and text[i - 1] != "-":
+                    depth -= 1
+                i += 1
+            if i >= len(text):
+                continue
+            pclose = match_close(text, i)
+            params = text[i + 1:pclose]
+            # body (first `{` at bracket depth 0 after the parameter list; `;` first = no body)
+            j, d = pclose + 1, 0
+            while j < len(text):
+                if text[j] in "([":
+                    d += 1
+                elif text[j] in ")]":
+                    d -= 1
+                elif text[j] == "{" and d == 0:
+                    break
+                elif text[j] == ";" and d == 0:
+                    j = -1
+                    break
+                j += 1
+            if j < 0 or j >= len(text):
+                continue
+            bclose = match_close(text, j)
+            self.fns.setdefault(name, (params, text[pclose + 1:j], text[j + 1:bclose]))
+
+    def get(self, name):
+        if name not in self.fns:
+            die(f"{self.path}: fn {name} not found")
+        return self.fns[name]
+
+    def param_names(self, name):
+        names = []
+        for p in split_top(self.get(name)[0]):
+            if re.match(r"^&?\s*(mut\s+)?self\b", p) or not p:
+                continue
+            m = re.match(r"^(?:mut\s+)?(" + IDENT + r")\s*:", p)
+            names.append(m.group(1) if m else None)
+        return names
+
+    def inlined(self, name, stack=(), depth=0):
+        """body of `fn name`; calls of functions defined in this file are replaced by `{ body }` with the
+        callee's parameters textually replaced by the parenthesised argument expressions"""
+        body = self.get(name)[2]
+        if depth >= 6:
+            return body
+        # only private helpers are inlined; a `pub` / `pub(crate)` function is an interface and stays a call
+        callable_names = (set(self.fns) & self.private) - {name} - set(stack)
+        pat = re.compile(r"(?:\bself\s*\.\s*|\bSelf\s*::\s*|(?<![\w.:]))(" + IDENT + r")\s*(?:::<[^>()]*>)?\(")
+        out, i = [], 0
+        while True:
+            m = pat.search(body, i)
+            if not m:
+                out.append(body[i:])
+                break
+            callee = m.group(1)
+            if callee not in callable_names or re.search(r"\bfn\s*$", body[:m.start()]):
+                out.append(body[i:m.end()])
+                i = m.end()
+                continue
+            close = match_close(body, m.end() - 1)
+            args = split_top(body[m.end():close])
+            inner = self.inlined(callee, stack + (name,), depth + 1)
+            for pn, arg in zip(self.param_names(callee), args):
+                if pn:
+                    inner = re.sub(r"(?<![\w.])" + re.escape(pn) + r"\b(?!\s*:(?!:))", "(" + arg + ")", inner)
+            out.append(body[i:m.start()] + "{ " + inner + " }")
+            i = close + 1
+        return "".join(out)
+
+
+def lets_of(body):
+    """`let [mut] name [: T] = expr;` bindings (first definition of each name)"""
+    lets = {}
+    for m in re.finditer(r"\blet\s+(?:mut\s+)?(" + IDENT + r")\s*(?::[^=;]+)?=\s*", body):
+        j, depth = m.end(), 0
+        while j < len(body):
+            if body[j] in "([{":
+                depth += 1
+            elif body[j] in ")]}":
+                depth -= 1
+                if depth < 0:
+                    break
+            elif body[j] == ";" and depth == 0:
+                break
+            j += 1
+        lets.setdefault(m.group(1), body[m.end():j].strip())
+    return lets
+
+
+def canon(expr, lets, depth=0):
+    """expression with local `let` names replaced by their definitions, references / derefs / clones of
+    plain paths / redundant parentheses dropped, whitespace removed"""
+    e = expr.strip()
+    for _ in range(8):
+        def sub(m):
+            n = m.group(1)
+            return "(" + lets[n] + ")" if n in lets and n != "self" else n
+        new = re.sub(r"(?<![\w.])(" + IDENT + r")\b(?!\s*(?:\(|::|!))", sub, e)
+        if new == e:
+            break
+        e = new
+    e = squash(e)
+    for _ in range(12):
+        new = re.sub(r"\((&|\*|&mut)?([\w.]+(?:\(\))?(?:\.[\w]+(?:\(\))?)*)\)", r"\2", e)   # (&a.b) -> a.b
+        new = re.sub(r"(?<![\w)])[&*]+(?=[\w(])", "", new)
+        if new == e:
+            break
+        e = new
+    return e
+
+
+def alias_root(expr, lets):
+    """the local a plain reference / clone / alias chain ends in (`(&x)`, `x.clone()`, `let y = &x;`)"""
+    e = squash(expr)
+    for _ in range(10):
+        e2 = re.sub(r"^[&*]+", "", e)
+        e2 = re.sub(r"^mut(?=\W)", "", e2)
+        if e2.startswith("(") and match_close(e2, 0) == len(e2) - 1:
+            e2 = e2[1:-1]
+        e2 = re.sub(r"\.clone\(\)$", "", e2)
+        if re.fullmatch(IDENT, e2) and e2 in lets and re.fullmatch(r"[&*(]*(?:mut)?\(*" + IDENT + r"\)*(?:\.clone\(\))?\)*", squash(lets[e2])):
+            e2 = squash(lets[e2])
+        if e2 == e:
+            break
+        e = e2
+    return e
+
+
+def find_required(text, patterns, what, where):
+    best = None
+    for p in patterns:
+        m = re.search(p, text, re.S)
+        if m and (best is None or m.start() < best.start()):
+            best = m
+    if best is None:
+        die(f"fn {where}: marker `{what}` not found")
+    return best
 
 
 def statement_after(body, pos):
-    """text from pos to the `;` that ends the enclosing statement (depth-aware)"""
     depth, i = 0, pos
     while i < len(body):
         ch = body[i]
@@ -112,28 +254,6 @@ def statement_after(body, pos):
     return body[pos:i]
 
 
-def balanced(body, open_pos):
-    """contents of the parenthesis opened at open_pos"""
-    depth, i = 0, open_pos
-    while i < len(body):
-        if body[i] in "([{":
-            depth += 1
-        elif body[i] in ")]}":
-            depth -= 1
-            if depth == 0:
-                return body[open_pos + 1:i]
-        i += 1
-    die("unbalanced parenthesis")
-
-
-def squash(s):
-    return re.sub(r"\s+", "", s)
-
-
-def lean_str(s):
-    return '"' + s.replace("\\", "\\\\").replace('"', '\\"') + '"'
-
-
 def main():
     if len(sys.argv) != 3:
         die("usage: btree_order.py <repo_root> <gen_dir>")
@@ -143,85 +263,146 @@ def main():
     for p in (p1, p2):
         if not os.path.exists(p):
             die(f"missing source file {p}")
-    s1 = strip(open(p1).read())
-    # only the non-test part of the crate
-    s1 = s1.split("#[cfg(test)]\nmod tests")[0]
-    body = fn_body(s1, "flush_owned_with", p1)
+    s1 = Src(cut_tests(strip_rust_comments(open(p1, encoding="utf-8").read())), p1)
     F = "flush_owned_with"
+    params, where, _ = s1.get(F)
+    sig = params + " " + where
+    # the two writer callbacks, by their bounds (generic parameter + where clause, or `impl Fn…`)
+    def writer(bound_re, what):
+        m = re.search(r"\b(" + IDENT + r")\s*:\s*(?:impl\s+)?Fn(?:Mut|Once)?\s*\(\s*" + bound_re, sig)
+        if not m:
+            die(f"fn {F}: no parameter / type with a `{what}` bound")
+        ty = m.group(1)
+        pm = re.search(r"(?:\bmut\s+)?\b(" + IDENT + r")\s*:\s*" + re.escape(ty) + r"\b", params)
+        if pm:
+            return pm.group(1)
+        if re.search(r"\b" + re.escape(ty) + r"\s*:\s*impl\b", params):
+            return ty
+        die(f"fn {F}: no parameter of the `{what}` callback type")
+    bw = writer(r"BucketObject\b", "Fn(BucketObject, Vec<u8>)")
+    mw = writer(r"Vec\s*<\s*u8\s*>\s*\)", "Fn(Vec<u8>)")
+    body = s1.inlined(F)
+    lets = lets_of(body)
+
+    # ---- order -----------------------------------------------------------------------------------
+    call = lambda n: r"(?<![\w.])\(?\s*&?\s*(?:mut\s+)?" + re.escape(n) + r"\s*\)?\s*\("
+    # the publication of the manifest: an assignment to a `.buckets` field whose target is NOT a local
+    # clone obtained from `self.metadata()` (that one is the snapshot being serialised)
+    pub = None
+    for m in re.finditer(r"(?<![\w.])(" + IDENT + r")\s*\.\s*buckets\s*=(?!=)\s*([^;}]+)", body):
+        target = m.group(1)
+        if re.fullmatch(r"self\.metadata\(\)", squash(lets.get(target, ""))):
+            continue
+        pub = (m.start(), m.group(2).strip())
+        break
+    if pub is None:
+        die(f"fn {F}: marker `<shared metadata>.buckets = <new manifest>` not found")
     marks = {
-        "snapshot": once(body, r"\bself\s*\.\s*serialize_dirty_buckets\s*\(", "self.serialize_dirty_buckets(", F),
-        "bucketWrites": once(body, r"\bbucket_writer\s*\(", "bucket_writer(", F),
-        "metaCommit": once(body, r"\bmetadata_writer\s*\(", "metadata_writer(", F),
-        "publishSaved": once(body, r"\blast_saved_version\s*\.\s*fetch_max\s*\(", "last_saved_version.fetch_max(", F),
-        "publishManifest": once(body, r"\bm\s*\.\s*buckets\s*=\s*manifest\b", "m.buckets = manifest", F),
-        "clearDirty": once(body, r"\bself\s*\.\s*mark_bucket_snapshot_saved\s*\(", "self.mark_bucket_snapshot_saved(", F),
+        "snapshot": find_required(body, [r"\bBucketOwned\s*\{", r"\bserialize_dirty_buckets\s*\("], "serialisation of the dirty buckets (BucketOwned { … })", F).start(),
+        "bucketWrites": find_required(body, [call(bw)], f"{bw}(…) [the Fn(BucketObject, Vec<u8>) callback]", F).start(),
+        "metaCommit": find_required(body, [call(mw)], f"{mw}(…) [the Fn(Vec<u8>) callback]", F).start(),
+        "publishSaved": find_required(body, [r"\blast_saved_version\s*\.\s*fetch_max\s*\("], "last_saved_version.fetch_max(", F).start(),
+        "publishManifest": pub[0],
+        "clearDirty": find_required(body[find_required(body, [call(bw)], "bucket writer", F).start():] if False else body,
+                                    [r"&&\s*[\w.]+\s*\.\s*3\s*==[^{;]*\{\s*[\w.]+\s*\.\s*1\s*=\s*false", r"\bmark_bucket_snapshot_saved\s*\("],
+                                    "clearing of a dirty mark (`bucket.1 = false` guarded by the dirty_version test)", F).start(),
     }
-    order = [k for k, _ in sorted(marks.items(), key=lambda kv: kv[1].start())]
-    gen_expr = squash(once(body, r"\blet\s+generation\s*=\s*([^;]+);", "let generation = …;", F).group(1))
-    dirty_val = squash(once(body, r"if\s+dirty_ids\s*\.\s*contains\s*\(\s*&\s*id\s*\)\s*\{\s*manifest\s*\.\s*insert\s*\(\s*id\s*,\s*([^)]*)\)",
-                            "if dirty_ids.contains(&id) { manifest.insert(id, …)", F).group(1))
-    clean_val = squash(once(body, r"else\s+if\s+let\s+Some\s*\(\s*committed_generation\s*\)\s*=\s*committed\s*\.\s*get\s*\(\s*&\s*id\s*\)\s*\{\s*manifest\s*\.\s*insert\s*\(\s*id\s*,\s*([^)]*)\)",
-                            "else if let Some(committed_generation) = committed.get(&id) { manifest.insert(id, …)", F).group(1))
-    obs = once(body, r"\blet\s+obsolete\b[^=]*=\s*committed\s*\.\s*iter\s*\(\s*\)\s*\.\s*filter\s*\(",
-               "let obsolete = committed.iter().filter(", F)
-    arg = balanced(body, obs.end() - 1)
-    mc = re.match(r"\s*\|[^|]*\|(.*)$", arg, re.S)
-    if not mc:
-        die("fn flush_owned_with: the obsolete filter is not a closure")
-    obs_filter = squash(mc.group(1))
-    # the generation handed to bucket_writer: `BucketObject { bucket_id: …, generation }` inside the call
-    call = statement_after(body, marks["bucketWrites"].start())
-    mo = re.search(r"BucketObject\s*\{([^}]*)\}", call)
+    order = [k for k, _ in sorted(marks.items(), key=lambda kv: kv[1])]
+
+    # ---- generation wiring -----------------------------------------------------------------------
+    bcall = statement_after(body, marks["bucketWrites"])
+    mo = re.search(r"BucketObject\s*\{([^}]*)\}", bcall)
     if not mo:
-        die("fn flush_owned_with: bucket_writer( is not called with a BucketObject { … } literal")
-    fields = [squash(f) for f in mo.group(1).split(",") if squash(f)]
-    gfield = [f for f in fields if f == "generation" or f.startswith("generation:")]
+        die(f"fn {F}: the bucket writer is not called with a `BucketObject {{ … }}` literal")
+    gfield = [f for f in split_top(mo.group(1)) if re.match(r"generation\b", f)]
     if len(gfield) != 1:
-        die("fn flush_owned_with: BucketObject literal has no single generation field")
-    obj_gen = gfield[0].split(":", 1)[1] if ":" in gfield[0] else "generation"
-    bucket_aborts = ".await" in squash(call) and squash(call).endswith("?")
-    mcall = statement_after(body, marks["metaCommit"].start())
+        die(f"fn {F}: BucketObject literal has no single `generation` field")
+    gexpr = gfield[0].split(":", 1)[1] if ":" in gfield[0] else "generation"
+    obj_gen = canon(gexpr, lets)
+    saved_gen = canon(body[find_required(body, [r"\blast_saved_version\s*\.\s*fetch_max\s*\("], "fetch_max", F).end():].split(",")[0], lets)
+
+    # the new manifest: `if S.contains(&I) { …(I, V) } else … C.get(&I) … (I, *G)` in either spelling
+    mm = find_required(body, [
+        r"\bif\s+(?P<S>[\w.()&]+?)\s*\.\s*contains\s*\(\s*&?\s*(?P<I>" + IDENT + r")\s*\)\s*\{\s*"
+        r"(?:[\w.()&]+?\s*\.\s*insert\s*\(\s*(?P=I)\s*,\s*(?P<V1>[^;{}]+?)\s*\)\s*;?|Some\s*\(\s*\(\s*(?P=I)\s*,\s*(?P<V2>[^;{}]+?)\s*\)\s*\))\s*\}\s*else\s*"
+        r"(?:if\s+let\s+Some\s*\(\s*(?P<G1>" + IDENT + r")\s*\)\s*=\s*(?P<C1>[\w.()&]+?)\s*\.\s*get\s*\(\s*&?\s*(?P=I)\s*\)\s*\{\s*[\w.()&]+?\s*\.\s*insert\s*\(\s*(?P=I)\s*,\s*\*\s*(?P=G1)\s*\)"
+        r"|\{\s*(?P<C2>[\w.()&]+?)\s*\.\s*get\s*\(\s*&?\s*(?P=I)\s*\)\s*\.\s*map\s*\(\s*\|\s*(?P<G2>" + IDENT + r")\s*\|\s*\(\s*(?P=I)\s*,\s*\*\s*(?P=G2)\s*\)\s*\))",
+    ], "new manifest: `if <dirty ids>.contains(&id) { (id, <generation>) } else <committed>.get(&id) … (id, *<committed generation>)`", F)
+    dirty_val = canon(mm.group("V1") or mm.group("V2"), lets)
+    committed = canon(mm.group("C1") or mm.group("C2"), lets)
+    dirty_set = canon(mm.group("S"), lets)
+    manifest = canon(pub[1], lets)
+
+    # the obsolete list: committed entries (I, G) with `M.get(I) != Some(G)`, closure or loop spelling
+    om = find_required(body, [
+        r"(?P<C>[\w.()&]+?)\s*\.\s*iter\s*\(\s*\)\s*\.\s*filter\s*\(\s*\|\s*&?\(\s*(?P<I>" + IDENT + r")\s*,\s*(?P<G>" + IDENT + r")\s*\)\s*\|\s*\{?\s*"
+        r"(?P<M>[\w.()&]+?)\s*\.\s*get\s*\(\s*&?\s*(?P=I)\s*\)\s*!=\s*Some\s*\(\s*&?\s*(?P=G)\s*\)\s*\}?\s*\)",
+        r"\bfor\s+\(\s*(?P<I>" + IDENT + r")\s*,\s*(?P<G>" + IDENT + r")\s*\)\s+in\s+(?P<C>[\w.()&]+?)(?:\s*\.\s*iter\s*\(\s*\))?\s*\{\s*if\s+"
+        r"(?P<M>[\w.()&]+?)\s*\.\s*get\s*\(\s*&?\s*(?P=I)\s*\)\s*!=\s*Some\s*\(\s*&?\s*(?P=G)\s*\)\s*\{",
+    ], "obsolete list: committed entries (id, gen) with `<new manifest>.get(id) != Some(gen)`", F)
+    obs_committed = canon(om.group("C"), lets)
+    obs_manifest = canon(om.group("M"), lets)
+    # the value `outcome.obsolete` must be that list, and the manifest it is compared with the published one
+    new_manifest_def = canon(re.sub(r"\.\s*clone\s*\(\s*\)\s*$", "", pub[1]), lets)
+
+    bucket_aborts = ".await" in squash(bcall) and squash(bcall).endswith("?")
+    mcall = statement_after(body, marks["metaCommit"])
     meta_aborts = ".await" in squash(mcall) and squash(mcall).endswith("?")
 
-    s2 = strip(open(p2).read())
-    s2 = s2.split("#[cfg(test)]\nmod tests")[0]
-    wbody = fn_body(s2, "flush_inner", p2)
-    W = "flush_inner"
-    wm = {
-        "flushOwned": once(wbody, r"\.\s*flush_owned_with\s*\(", ".flush_owned_with(", W),
-        "deleteObsolete": once(wbody, r"\bself\s*\.\s*storage\s*\.\s*delete\s*\(", "self.storage.delete(", W),
+    strip_clone = lambda e: re.sub(r"\.clone\(\)$", "", e)
+    facts = {
+        "generationSource": obj_gen,
+        "savedVersionSource": saved_gen,
+        "dirtyManifestGeneration": dirty_val,
+        "committedSource": strip_clone(committed),
+        "obsoleteIteratesCommitted": strip_clone(obs_committed) == strip_clone(committed)
+        or alias_root(om.group("C"), lets) == alias_root(mm.group("C1") or mm.group("C2"), lets),
+        "obsoleteComparesWithNewManifest": alias_root(om.group("M"), lets) == alias_root(pub[1], lets)
+        or strip_clone(obs_manifest) == strip_clone(new_manifest_def),
+        "dirtySetFromSnapshots": bool(re.search(r"\.bucket_id\b", dirty_set)) and "collect" in dirty_set,
     }
-    worder = [k for k, _ in sorted(wm.items(), key=lambda kv: kv[1].start())]
-    wcall = statement_after(wbody, wm["flushOwned"].start())
+
+    # ---- the production caller -------------------------------------------------------------------
+    s2 = Src(cut_tests(strip_rust_comments(open(p2, encoding="utf-8").read())), p2)
+    W = "flush_inner"
+    wbody = s2.inlined(W)
+    wf = find_required(wbody, [r"\.\s*flush_owned_with\s*\("], ".flush_owned_with(", W)
+    wd = find_required(wbody, [r"\bstorage\s*\.\s*delete\s*\("], "storage.delete(", W)
+    worder = [k for k, _ in sorted({"flushOwned": wf.start(), "deleteObsolete": wd.start()}.items(), key=lambda kv: kv[1])]
+    wcall = statement_after(wbody, wf.start())
     wrapper_aborts = squash(wcall).endswith(".await?")
-    loop = once(wbody, r"\bfor\s+\w+\s+in\s+&?\s*outcome\s*\.\s*obsolete\b", "for … in &outcome.obsolete", W)
-    deletes_obsolete_only = loop.start() < wm["deleteObsolete"].start()
+    ob = re.search(r"\.\s*obsolete\b", wbody)
+    deletes_obsolete_only = bool(ob) and wf.start() < ob.start() < wd.start() and len(re.findall(r"\bstorage\s*\.\s*delete\s*\(", wbody)) == 1
 
     b = lambda x: "true" if x else "false"
     out = f"""/-
 GENERATED by bin/translate/btree_order.py from
-  rs/anda_db_btree/src/btree.rs      (fn flush_owned_with)
+  rs/anda_db_btree/src/btree.rs      (fn flush_owned_with, private helpers inlined)
   rs/anda_db/src/index/btree.rs      (fn flush_inner)
 Do not edit: regenerated on every check. Import-free data plus kernel-checked facts.
 -/
 namespace AndaVerif.Gen.BTreeOrder
 
-/-- the effects of `flush_owned_with`, by first occurrence in the function body -/
+/-- the effects of `flush_owned_with`, by first occurrence in the (inlined) function body -/
 inductive Step where
   | snapshot | bucketWrites | metaCommit | publishSaved | publishManifest | clearDirty
   deriving DecidableEq, Repr
 
 def flushOrder : List Step := [{", ".join("." + k for k in order)}]
 
-/-- `let generation = …;` -/
-def generationExpr : String := {lean_str(gen_expr)}
-/-- generation field of the `BucketObject` handed to `bucket_writer` -/
-def objectGeneration : String := {lean_str(obj_gen)}
-/-- manifest value of a bucket written by this flush / of a clean bucket -/
-def dirtyManifestValue : String := {lean_str(dirty_val)}
-def cleanManifestValue : String := {lean_str(clean_val)}
-/-- the filter that selects `FlushOutcome::obsolete` from the committed manifest -/
-def obsoleteFilter : String := {lean_str(obs_filter)}
+/-- the generation of the `BucketObject` handed to the bucket writer, local `let`s resolved -/
+def generationSource : String := {lean_str(facts["generationSource"])}
+/-- the value `last_saved_version.fetch_max(…)` publishes -/
+def savedVersionSource : String := {lean_str(facts["savedVersionSource"])}
+/-- the generation a bucket written by this flush gets in the new manifest -/
+def dirtyManifestGeneration : String := {lean_str(facts["dirtyManifestGeneration"])}
+/-- where the entries kept for clean buckets come from -/
+def committedSource : String := {lean_str(facts["committedSource"])}
+/-- "written by this flush" = the ids of the serialised snapshots -/
+def dirtySetFromSnapshots : Bool := {b(facts["dirtySetFromSnapshots"])}
+/-- `FlushOutcome::obsolete` = committed entries `(id, gen)` with `new_manifest.get(id) != Some(gen)` -/
+def obsoleteIteratesCommitted : Bool := {b(facts["obsoleteIteratesCommitted"])}
+def obsoleteComparesWithNewManifest : Bool := {b(facts["obsoleteComparesWithNewManifest"])}
 /-- a failing bucket write / metadata write returns from the function at once (`.await … ?`) -/
 def bucketWriteErrorAborts : Bool := {b(bucket_aborts)}
 def metaWriteErrorAborts : Bool := {b(meta_aborts)}
@@ -247,15 +428,17 @@ theorem gen_btree_flush_order :
     ∧ precedes .metaCommit .publishManifest flushOrder = true
     ∧ precedes .metaCommit .clearDirty flushOrder = true := by decide
 
-/-- one fresh generation per flush: the metadata version, used for every object written and for
-their manifest entries; clean buckets keep their committed generation; obsolete = committed entries
-the new manifest does not keep -/
+/-- one fresh generation per flush: the version of the metadata snapshot being committed, used for
+every object written, for their manifest entries and for `last_saved_version`; clean buckets keep
+the entry of the committed manifest; obsolete = committed entries the new manifest does not keep -/
 theorem gen_btree_generation :
-    generationExpr = "meta.stats.version"
-    ∧ objectGeneration = "generation"
-    ∧ dirtyManifestValue = "generation"
-    ∧ cleanManifestValue = "*committed_generation"
-    ∧ obsoleteFilter = "manifest.get(id)!=Some(generation)" := by decide
+    generationSource = "self.metadata().stats.version"
+    ∧ savedVersionSource = generationSource
+    ∧ dirtyManifestGeneration = generationSource
+    ∧ committedSource = "self.metadata().buckets"
+    ∧ dirtySetFromSnapshots = true
+    ∧ obsoleteIteratesCommitted = true
+    ∧ obsoleteComparesWithNewManifest = true := by decide
 
 theorem gen_btree_errors_abort :
     bucketWriteErrorAborts = true ∧ metaWriteErrorAborts = true ∧ wrapperFlushErrorAborts = true := by decide
